@@ -9,7 +9,9 @@ Local Open Scope N_scope.
 
 (* (a) at stream level, for every segmentation: an accepted request head is a strict RFC 9112 head of the
    stream - request line up to the first CRLF, strictly well-formed field lines up to the first empty
-   line, framing as the declarative rules say - and the body starts exactly behind the empty line. *)
+   line, the header list being exactly these field lines (split at the first colon, name upper-cased, value
+   stripped of SP / HTAB; minus what header_map withholds), framing as the declarative rules say of that
+   list - and the body starts exactly behind the empty line. *)
 Theorem C01_accepted_head_is_strict : forall c x n p r p',
     NE p -> safe_cfg c -> parse_request c x n p = inl (r, p') -> strict_head c (u_abs p) r (u_abs p').
 Proof. exact accepted_head_is_strict_any_segmentation. Qed.
